@@ -21,6 +21,7 @@ DECIDED = [
     "resolve reads _fn/_subdependencies of the one Depends object",
     "R-C18-FLOW: in Depends.resolve and actor_run names and awaited values come from the same mapping in the same order (keys()/values(), "
     "gather without return_exceptions, dict(zip(...))), are passed as **kwargs to the provider / actor, and the provider's awaited value is returned",
+    "R-C18-FLOW (predicate): asyncify decides 'already a coroutine function' with asyncio.iscoroutinefunction",
 ]
 NOT_DECIDED = ["value equality over whole dependency graphs", "shared sub-dependency call counts"]
 ASSUMPTIONS = ["asyncio.gather preserves argument order in its result; dict preserves insertion order"]
